@@ -6,6 +6,15 @@ AutoPoints == {[t |-> "auto", md |-> d, pat |-> p, cont |-> c, nested |-> n, aut
                  d \in Defaults, p \in Patterns, c \in Containers, n \in BOOLEAN}
 EmitAuto == (phase = "md") => \A a \in AutoPoints : PrintT(<<"CASE", ToJson(a)>>)
 AutoOnlyInAutomaticModules == \A a \in AutoPoints : a.automatic => (a.md = "AUTOMATIC" /\ a.pat = "none")
+\* cross-module points: a keyword-less or keyworded tag written in a module with default md reaches a module with default md2 by
+\* COMPONENTS OF an imported type or by instantiating an imported parameterized type; the mode is decided where the tag is
+\* written (X.680 31.2.7 speaks of the module in which the tag notation appears), never by the module that uses it
+CrossPoints == {[t |-> "xtag", md |-> d, md2 |-> d2, kw |-> k, cls |-> "context", via |-> v, kind |-> kd, pos |-> "component",
+                 explicit |-> IsExplicit(d, k, kd)] :
+                  d \in Defaults, d2 \in Defaults \ {"AUTOMATIC"}, k \in Keywords, v \in {"compof", "param"}, kd \in {"primitive", "refseq"}}
+EmitCross == (phase = "md") => \A a \in {x \in CrossPoints : x.md # x.md2} : PrintT(<<"CASE", ToJson(a)>>)
+CrossIndependentOfUser == \A a, b \in CrossPoints : (a.md = b.md /\ a.kw = b.kw /\ a.kind = b.kind) => a.explicit = b.explicit
+ASSUME CrossIndependentOfUser
 ASSUME AutoOnlyInAutomaticModules
 ASSUME Cardinality(AutoPoints) = 96
 =============================================================================
